@@ -62,6 +62,10 @@ def spellings(box, parent, name, single):
            ("rel-from-other", other, os.path.relpath(root, other)),
            ("dbl-sep", box, root.replace("/" + name, "//" + name)),
            ("dbl-sep-mid", box, parent + "/./" + name)]
+    link = os.path.join(box, "via-link")
+    if not os.path.lexists(link):
+        os.symlink(parent, link)
+    out.append(("symlinked-parent", box, os.path.join(link, name)))
     if not single:
         out += [("trail", parent, name + "/"), ("trail-abs", box, root + "/"),
                 ("trail-dot", parent, name + "/."), ("dot-inside", root, "."),
